@@ -406,6 +406,14 @@ def _static_tree_product_message(tree_path: str, path: str) -> str:
     )
 
 
+def _volatile_input_message(path: str) -> str:
+    """Format the error for a path that is both a volatile output and an input of a step.
+
+    The same text is used whichever of the two declarations arrives last.
+    """
+    return f"A volatile output cannot be an input of a step: {path}"
+
+
 def _glob_product_message(pattern: str, glob_step_label: str, path: str, step_label: str) -> str:
     """Format the error for a glob pattern that matches a path a step builds.
 
@@ -1591,7 +1599,7 @@ class Workflow(Trellis):
             # hence unavailable, until its creator returns or it is deleted.
             state = file.get_state()
             if state == FileState.VOLATILE:
-                raise GraphError(f"Input is volatile: {path}")
+                raise GraphError(_volatile_input_message(path))
             self._raise_if_forbidden_target(path, state)
         new_relation = (
             self.db.execute(
@@ -1706,7 +1714,7 @@ class Workflow(Trellis):
         if file_state == FileState.VOLATILE:
             # Do not allow volatile files to have sinks.
             if any(file.sinks()):
-                raise GraphError(f"An input to an existing step cannot be volatile: {path}")
+                raise GraphError(_volatile_input_message(path))
         else:
             # Watch parent directories of non-volatile files.
             self.watch_dir(Path(path).parent)
